@@ -40,6 +40,7 @@ func init() {
 			{ID: "C05.R7", Doc: "acquireSemaphore tests the term signal before it can block", Run: c05r7},
 			{ID: "C05.R8", Doc: "Reader.read never returns (n>0, err!=nil); bounded retries; Reader.rerr is accessed only by Reader.read", Run: c05r8},
 			{ID: "C05.R9", Doc: "the io.Writer handed to drpcwire.NewWriter terminates the manager when the transport write fails", Run: c05r9},
+			{ID: "C05.R10", Doc: "optional callbacks: a func-typed struct field (Options.Log and the like) is called only where a non-nil test of that same field dominates the call; a failed connection is reported to a logger that may not be configured, and calling the nil func panics the serving goroutine", Run: c05r10},
 			{ID: "C05.S1", Alias: "C04.R4"},
 			{ID: "C05.S2", Alias: "C04.R3"},
 			{ID: "C05.S3", Alias: "C02.R6"},
@@ -715,4 +716,55 @@ func ifsOn(fn *ssa.Function, v ssa.Value) []*ssa.If {
 		}
 	})
 	return out
+}
+
+// c05r10: every call through a func-typed struct field in the serving packages is dominated by "field != nil" on a
+// load of the same access path (contradiction rule: the field is optional wherever it is tested).
+func c05r10(c *an.Ctx) {
+	n := 0
+	for _, pkg := range []string{"drpcserver", "drpcmanager", "drpcstream", "drpcconn", "drpcwire"} {
+		for _, fn := range must(c.P.SourceFuncs(pkg)) {
+			for _, b := range fn.Blocks {
+				for _, in := range b.Instrs {
+					ci, ok := in.(ssa.CallInstruction)
+					if !ok || ci.Common().IsInvoke() || ci.Common().StaticCallee() != nil {
+						continue
+					}
+					ld, ok := an.Unwrap(ci.Common().Value).(*ssa.UnOp)
+					if !ok || ld.Op != token.MUL {
+						continue
+					}
+					path := an.PathOf(ld.X)
+					f := path.Last()
+					if f == nil {
+						continue
+					}
+					if _, isSig := f.Type().Underlying().(*types.Signature); !isSig {
+						continue
+					}
+					n++
+					c.Analysed(fn)
+					guarded := false
+					for _, g := range an.GuardsOf(b) {
+						bin, ok := g.Cond.(*ssa.BinOp)
+						if !ok || !((bin.Op == token.NEQ && g.True) || (bin.Op == token.EQL && !g.True)) {
+							continue
+						}
+						x := bin.X
+						if an.IsNilConst(x) {
+							x = bin.Y
+						} else if !an.IsNilConst(bin.Y) {
+							continue
+						}
+						if gl, ok := an.Unwrap(x).(*ssa.UnOp); ok && gl.Op == token.MUL && an.PathOf(gl.X).String() == path.String() {
+							guarded = true
+						}
+					}
+					c.Check(guarded, fmt.Sprintf("%s | call of optional callback %s is guarded by a non-nil test", an.ShortFunc(fn), path.FieldString()), c.At(in), "",
+						"the func-typed field "+path.FieldString()+" is called without a dominating non-nil test of that field: with the option unset the call panics in the goroutine that serves (or accepts) connections, e.g. when ServeOne returns a transport error")
+				}
+			}
+		}
+	}
+	c.Floor("calls through func-typed option fields", 2, n)
 }
